@@ -108,6 +108,23 @@ def r1_label_source(chk: Check) -> None:
     ap = P.func(f"{BUILDER}:Template.add_parameter")
     turns = [n for n, b in ptests("$v.generation_mode == GenerationMode.NEGATIVE", ap.node) if isinstance(n, ast.If) and name_of(b, "v") in params_of(ap.node) and phas("$i.mode = GenerationMode.NEGATIVE", n.body)]
     chk.expect(bool(turns), "C03.R1", ap, "component becomes NEGATIVE once a negative value is added", "bookkeeping shape not recognised", ap.loc())
+    # OWNERSHIP: add_parameter updates `info.mode` IN PLACE, so every ComponentInfo a template stores or hands out must be
+    # a fresh object of its own (a cached / shared instance would flip the label of every other case in the process)
+    inplace = phas("$i.mode = $_", ap.node)
+    n_ctor = 0
+    for f in (x for q, x in P.module(BUILDER).functions.items() if q.startswith("Template.")):
+        for c in body_calls(f):
+            r = P.resolve_call(f, c)
+            is_component_value = any(isinstance(a, (ast.Assign, ast.Dict)) and ("_components" in unparse(a, 300) or "ComponentKind" in unparse(a, 300)) for a in ancestors(c))
+            if last_attr(c) == "ComponentInfo":
+                n_ctor += 1
+                chk.ok("C03.R1", f, "component labels are fresh ComponentInfo(...) objects", "", f.loc(c))
+            elif is_component_value and r and r[0] == "func" and any(d.endswith("lru_cache") or d.endswith("cache") for d in r[1].decorator_names()) and any(last_attr(x) == "ComponentInfo" for x in body_calls(r[1])):  # type: ignore[union-attr]
+                chk.violation("C03.R1", f, "component labels are fresh ComponentInfo(...) objects",
+                              f"`{unparse(c, 50)}` returns a ComponentInfo shared through a cache, while Template.add_parameter sets `info.mode = NEGATIVE` in place: after the first negative parameter every part labelled positive anywhere in the process (cases already generated included) reads as negative",
+                              f.loc(c))
+    if inplace and n_ctor < 2:
+        chk.undecided("C03.R1", ap, "component labels are fresh ComponentInfo(...) objects", f"only {n_ctor} direct ComponentInfo(...) construction(s) found in Template", ap.loc())
     for name in ("with_body", "with_parameter"):
         f = P.func(f"{BUILDER}:Template.{name}")
         t = unparse(f.node, 100000)
